@@ -85,20 +85,21 @@ Section ScalarMul.
     end.
 
   (* for k := windowSize-1; k > 0; k-- { if !buckets[k].IsZero() { running += buckets[k] }; acc += running }
-     [bs] = buckets[1..] reversed, i.e. highest bucket first *)
-  Fixpoint running_sum (bs : list G) (running acc : G) : G :=
-    match bs with
-    | [] => acc
-    | b :: r =>
+     [k] counts down from windowSize-1; bucket 0 is never read *)
+  Fixpoint running_sum (buckets : list G) (k : nat) (running acc : G) : G :=
+    match k with
+    | O => acc
+    | S k' =>
+        let b := nth k buckets zero in
         let running' := if is_zero b then running else add running b in
-        running_sum r running' (add acc running')
+        running_sum buckets k' running' (add acc running')
     end.
 
   Definition window_round (points : list G) (scalars : list (list N)) (w : N) (acc : G) (wIdx : N) : G :=
     let acc1 := iter_n (N.to_nat w) (fun x => add x x) acc in
     let buckets := repeat zero (N.to_nat (2 ^ w)) in
     let buckets := fill_buckets buckets points scalars (wIdx * w) w in
-    running_sum (rev (tl buckets)) zero acc1.
+    running_sum buckets (N.to_nat (2 ^ w) - 1) zero acc1.
 
   (* window indices numWindows-1 downto 0 *)
   Fixpoint down_from (n : nat) : list N :=
